@@ -541,6 +541,7 @@ for _pid, _what in (("C03", "a drawn valid RESULT returned by the stub; oracles:
                     ("C14", "valid, boundary and single-constraint-violating requests (as in C04) and declared errors; every intact exchange is replayed into kin-openapi's openapi3filter loaded with the openapi3.json goa generated for the design; oracles: the document accepts the request iff the reference model says it satisfies the design (disagreements between server and model are C04's and not reported twice), and every success or declared-error response conforms to the documented response for its status; formats are not compared"),
                     ("C05", "the stub returns declared errors (Make<Name>), wrapped declared errors, undeclared service errors with every flag combination, plain Go errors; oracles: designed status, same name/id/message/flags at the client, documented default mapping for undeclared errors, exactly one WriteHeader, body parses under its Content-Type, no handler gives up on its response")):
     PROPS[_pid] = dict(PROPS["C02"])
+    PROPS[_pid]["focus"] = {"C06": "security", "C08": "views"}.get(_pid, "")
     PROPS[_pid]["rule"] = PROPS["C02"]["rule"].split("one run =")[0] + "one run = 6 (quick) / 20 (thorough) exchanges generated-client -> SimNet -> generated-server -> scripted stub with " + _what + "; distinct = (design, method, mode, fault multiset) tuples"
 
 
@@ -619,7 +620,7 @@ def selftest_determinism(prop, nseeds):
     if cfg["engine"] == "gen" or (cfg["engine"] == "rtgen" and os.environ.get("VERIF_HALF") == "gen"):
         import orch_gen
         tools = orch_gen.build_tools(work)
-        binary, specdir, _ = orch_gen.prepare_batch(work, tools, 4242, 12, cfg["race"])
+        binary, specdir, _ = orch_gen.prepare_batch(work, tools, 4242, 12, cfg["race"], cfg.get("focus", ""))
         env0 = {"VERIF_SPEC_DIR": specdir, "VERIF_GEN_DIR": work.path("gen")}
     else:
         binary = work.build(cfg.get("pkg", "./engines/rt"), "rt", race=cfg["race"])
